@@ -209,16 +209,6 @@ theorem alignedV_getitem_int_weak (a0 : Nat) (f : Bool) (a : Nat) (t : Raw) (gs 
         · exact hp _ h1
         · exact Or.inr h1
 
-theorem joinAll_single_source (l : List Prov) (k : Nat) (h : ∀ p ∈ l, p = .item k ∨ p = .none) :
-    joinAll l = .item k ∨ joinAll l = .none := by
-  induction l with
-  | nil => right; rfl
-  | cons p ps ih =>
-    have ih' := ih (fun q hq => h q (by simp [hq]))
-    have hp := h p (by simp)
-    simp only [joinAll, List.foldr_cons] at ih' ⊢
-    rcases hp with hp | hp <;> rcases ih' with h2 | h2 <;> simp [hp, h2, Prov.join]
-
 /-- `Image.narrow` / `FlowField.narrow` -/
 theorem alignedV_image_narrow (a0 : Nat) (other : Option SVal) (f : Bool) (t : Raw) (g : GridTag) (a : Nat)
     (d s l : Int) (hal : AlignedS a0 (.image f t g a)) :
@@ -237,7 +227,7 @@ theorem alignedV_image_narrow (a0 : Nat) (other : Option SVal) (f : Bool) (t : R
     | one s2 =>
       obtain ⟨f2, data, gs2, a2, rfl, hdp, hsrc, hfa2⟩ := batchNarrow_result _ _ _ _ _ _ _ _ hbn
       simp only []
-      have hJ := joinAll_single_source t.prov g.src (by simpa [itemOf] using hprov)
+      have hJ := joinAll_single_source t.prov g.src hprov
       apply alignedV_getitem_int_weak a0 f2 a2 data gs2 0 (.item g.src)
       · intro h2
         obtain ⟨h3, h4⟩ := hfa2 h2
